@@ -327,7 +327,7 @@ func run(p Plan) (vk.Outcome, error) {
 				if err != nil {
 					own := true
 					for _, e := range fErr { // f's error may itself wrap a context error: it is f's, not this call's
-						if errors.Is(err, e) {
+						if err == e {
 							own = false
 						}
 					}
@@ -359,9 +359,9 @@ func run(p Plan) (vk.Outcome, error) {
 						return vk.Violf("lost", "End after %d of %d results", yielded, p.Len)
 					}
 				} else {
-					ok := p.SrcErrAt >= 0 && errors.Is(final, srcE)
+					ok := p.SrcErrAt >= 0 && final == srcE
 					for i, e := range fErr {
-						if errors.Is(final, e) {
+						if final == e {
 							if started[i].Load() == 0 {
 								return vk.Violf("wrong-error", "failed with the error of f(item %d), which never ran", i)
 							}
